@@ -197,7 +197,12 @@ func (in *Interp) RunInits() (err error) {
 			continue
 		}
 		in.steps = 0
+		// initialisers run once and may be expensive (a case-insensitive regexp compiles its
+		// character classes through the Unicode folding tables): a much larger step budget
+		saved := in.cfg.MaxSteps
+		in.cfg.MaxSteps = saved * 10
 		in.initOne(pkg)
+		in.cfg.MaxSteps = saved
 	}
 	// freeze everything reachable from globals
 	seen := map[*Obj]bool{}
@@ -1328,7 +1333,9 @@ func (in *Interp) convert(from, to types.Type, v Value) Value {
 			switch x := v.(type) {
 			case *Term:
 				if x.Sort.K == SFP64 {
-					panic(engineErr("symbolic float to int conversion"))
+					// in-range values convert toward zero; out-of-range is implementation-defined in Go
+					r := ts.FPToBV(x, in.isSigned(to))
+					return ts.Resize(r, w, in.isSigned(to))
 				}
 				return ts.Resize(x, w, in.isSigned(from))
 			case float64:
